@@ -405,6 +405,13 @@ def _eval_prefix(ctx, case):
             ctx.oracle_fail("complete-file-not-accepted", case, {"verdict": complete[:2]})
         return
     natoms = back["natoms"]
+    if back["init"] is G.MISSING or back["size"] is G.MISSING:
+        # the reader's private offsets are not available under their names: take them from the bytes (two header
+        # lines, then lines of the length of the first atom line)
+        l0 = data.find(b"\n") + 1
+        l1 = data.find(b"\n", l0) + 1
+        back = dict(back, init=l1, size=data.find(b"\n", l1) + 1 - l1)
+        ctx.count("private-state-not-compared:reader-offsets")
     b = back["init"] + natoms * back["size"]                    # offset of the lattice line (reader's own view)
     body = data[:-1] if data.endswith(b"\n") else data
     b_indep = body.rfind(b"\n") + 1                              # independent: start of the last line
